@@ -125,7 +125,11 @@ def run_tick_history(ops, m, later=()):
         elif o[0] == "nice":
             sc.nice(o[1]) if o[1] is not None else sc.nice()
         elif o[0] == "ticks":
-            list(sc.ticks(o[1])) if o[1] is not None else list(sc.ticks())
+            got = sc.ticks(o[1]) if o[1] is not None else sc.ticks()
+            if isinstance(got, list) and len(o) > 2 and o[2]:     # the caller edits the list it got back; later answers must not show it
+                got.reverse(); del got[:1]; got.append(0.0)
+            else:
+                list(got)
         elif o[0] == "tickFormat":
             sc.tickFormat(o[1]) if o[1] is not None else sc.tickFormat()
         elif o[0] == "copy":
@@ -223,7 +227,7 @@ def body_c13(tier, seed, rep, only_prop=False, scale=1):
         for _k in range(rng.randint(1, 5)):
             c = rng.random()
             if c < 0.3:
-                ops.append(("ticks", pick_m(rng)))
+                ops.append(("ticks", pick_m(rng), rng.random() < 0.5))
             elif c < 0.4:
                 ops.append(("tickFormat", pick_m(rng)))
             elif c < 0.65:
